@@ -16,7 +16,7 @@ abbrev Stk := List Pop
 inductive Op where
   | push (p : Pop) | pop | tryPop | cur | getCur | edit (p : Pop) | tryEdit (p : Pop)
   | peek (d : Nat) | tryPeek (d : Nat) | rot (n : Nat) | len | empty
-  | cRot (n : Nat) | cClear | cDup | cIleave
+  | cRot (n : Nat) | cClear | cDup | cIleave | cSplit
   deriving Repr, DecidableEq
 
 inductive Out where
@@ -57,6 +57,15 @@ def interleave : List Nat → List Nat → List Nat
     match ys with
     | [] => x :: xs
     | y :: ys' => x :: y :: interleave xs ys'
+
+/-- `SplitPopulationByObjectiveValue` on the popped population `p` (objective value = tag):
+sort ascending, cut into chunks of `⌈n/2⌉`; exactly two chunks are required (`collect_tuple().unwrap()`),
+and `chunks(0)` panics, so fewer than two individuals panic. Returns `(lower, upper)`. -/
+def splitPop (p : Pop) : Option (Pop × Pop) :=
+  let sorted := p.mergeSort (fun a b => decide (a ≤ b))
+  let n := p.length
+  if n < 2 then none
+  else some (sorted.take ((n + 1) / 2), sorted.drop ((n + 1) / 2))
 
 def step (s : Stk) : Op → Stk × Out
   | .push p => (s ++ [p], .ok)
@@ -119,6 +128,13 @@ def step (s : Stk) : Op → Stk × Out
       match vecPop s1 with
       | none => (s1, .panic)        -- the first pop already happened
       | some (p2, s2) => (s2 ++ [interleave p1 p2], .ok)
+  | .cSplit =>                      -- pop; sort; two halves; push(upper); push(lower)
+    match vecPop s with
+    | none => (s, .panic)
+    | some (p, s1) =>
+      match splitPop p with
+      | none => (s1, .panic)        -- the population was already popped
+      | some (lower, upper) => (s1 ++ [upper] ++ [lower], .ok)
 
 def run (s : Stk) : List Op → Stk × List Out
   | [] => (s, [])
@@ -158,6 +174,13 @@ def specStep (s : Spec) : Op → Spec × Out
     | [] => (s, .panic)
     | [_] => ([], .panic)
     | p1 :: p2 :: r => (interleave p1 p2 :: r, .ok)
+  | .cSplit =>
+    match s with
+    | [] => (s, .panic)
+    | p :: r =>
+      match splitPop p with
+      | none => (r, .panic)
+      | some (lower, upper) => (lower :: upper :: r, .ok)
 
 def specRun (s : Spec) : List Op → Spec × List Out
   | [] => (s, [])
@@ -189,6 +212,7 @@ def Op.parse? : Sexp → Option Op
   | .list [.atom "c-clear"] => some .cClear
   | .list [.atom "c-dup"] => some .cDup
   | .list [.atom "c-ileave"] => some .cIleave
+  | .list [.atom "c-split"] => some .cSplit
   | _ => none
 
 def Out.toSexp : Out → Sexp
